@@ -546,17 +546,29 @@ pub fn load_all(mem: &mut Memory, args: &[GcRef], _env: GcRef, recursion_depth: 
     validate_args!(mem, LOAD_ALL.name, args, (let _input: TypeLabel::String), (let source: TypeLabel::Any));
 
     let ok_symbol         = mem.symbol_for("ok");
-    let incomplete_symbol = mem.symbol_for("incomplete");
-    let error_symbol      = mem.symbol_for("error");
-    let invalid_symbol    = mem.symbol_for("invalid");
-    let mut line          = mem.allocate_number(1);
-    let mut column        = mem.allocate_number(1);
-    let mut cursor        = args[0].clone();
+    let cursor            = args[0].clone();
 
     let old_module = mem.get_current_module();
     if let Some(s) = list_to_string(source.clone()) {
         mem.define_module(&s);
     }
+
+    // whatever stops the load, the module that was current before it is current again afterwards
+    let result = load_all_forms(mem, cursor, source, recursion_depth);
+
+    mem.set_current_module(&old_module).unwrap();
+
+    result.map(|_| ok_symbol)
+}
+
+
+fn load_all_forms(mem: &mut Memory, mut cursor: GcRef, source: GcRef, recursion_depth: usize) -> Result<(), GcRef> {
+    let ok_symbol         = mem.symbol_for("ok");
+    let incomplete_symbol = mem.symbol_for("incomplete");
+    let error_symbol      = mem.symbol_for("error");
+    let invalid_symbol    = mem.symbol_for("invalid");
+    let mut line          = mem.allocate_number(1);
+    let mut column        = mem.allocate_number(1);
 
     while !cursor.is_nil() {
         let output     = read(mem, &[cursor.clone(), source.clone(), line.clone(), column.clone()], GcRef::nil(), recursion_depth + 1)?;
@@ -568,10 +580,7 @@ pub fn load_all(mem: &mut Memory, args: &[GcRef], _env: GcRef, recursion_depth: 
         column         = property(mem, "column", output).unwrap();
 
         if symbol_eq!(status, ok_symbol) {
-            let nr = eval(mem, &[result], GcRef::nil(), recursion_depth + 1);
-            if nr.is_err() {
-                return nr;
-            }
+            eval(mem, &[result], GcRef::nil(), recursion_depth + 1)?;
         }
         else if symbol_eq!(status, incomplete_symbol) {
             let error = make_error(mem, "input-incomplete", LOAD_ALL.name, &vec![]);
@@ -590,9 +599,7 @@ pub fn load_all(mem: &mut Memory, args: &[GcRef], _env: GcRef, recursion_depth: 
         cursor = rest;
     }
 
-    mem.set_current_module(&old_module).unwrap();
-
-    Ok(ok_symbol)
+    Ok(())
 }
 
 
